@@ -158,7 +158,7 @@ def z_r2_naive(p: Project, rep: Report):
     scal, _ = scalar_types(p)
     fd0 = p.get_function(TYPES, "format_datetime").node
     fd = flat(p, TYPES, fd0)
-    fd_ok = _refuses_naive(fd, params_of(fd0)[1])
+    fd_ok = _refuses_naive(fd, params_of(fd0)[-1])
     for name in ("DateTime", "Time"):
         ci = scal[name]
         nk = D.native_key(ci)
